@@ -98,6 +98,12 @@ func build(p *im.Program, rt reflect.Type, ty *im.Type, w wm.W) reflect.Value {
 	return out
 }
 
+// NilEmptyRequiredLists makes buildFields leave a required list field nil when
+// its value is the empty list: by the documented Go mapping a nil slice is the
+// empty list, and a required list field has no other "unset" state. Set only
+// by the serializer half of C01 around a single build.
+var NilEmptyRequiredLists bool
+
 // buildFields fills the Go struct value out from w.
 func buildFields(p *im.Program, out reflect.Value, fields []*im.Field, w wm.W) {
 	byID := map[int16]wm.W{}
@@ -112,6 +118,9 @@ func buildFields(p *im.Program, out reflect.Value, fields []*im.Field, w wm.W) {
 		fv := out.FieldByName(GoFieldName(f))
 		if !fv.IsValid() {
 			panic(fmt.Sprintf("generated struct %s has no field %q (thrift field %q)", out.Type(), GoFieldName(f), f.Name))
+		}
+		if NilEmptyRequiredLists && f.Required() && v.K == wm.KList && len(v.Elems) == 0 {
+			continue // nil slice == empty list
 		}
 		fv.Set(build(p, fv.Type(), f.Type, v))
 	}
